@@ -36,19 +36,20 @@ ASSUMPTIONS = [
 ]
 LEVEL_TEXT = (
     "Coq proofs over a sequential model of the record/fairy life cycle of the five pool classes with a fault oracle at "
-    "every DBAPI call, for all operation histories, fault scripts and configurations: no_leak (all five pools; guard: no "
-    "BaseException out of close()), overflow_consistent / checkedout() exact on every failure path (QueuePool; guard: no "
-    "BaseException out of close() or out of the reset of an explicit close()), both guards shown necessary by refutation "
-    "witnesses; refutations of ledger (StaticPool abandons an invalidated connection) and of no_dead_reuse (BaseException "
-    "out of close(); equal time stamps); the decision kernel of no_dead_reuse (get_connection) for all states."
+    "every DBAPI call, for all operation histories, fault scripts and configurations (code as of d50803e): no_leak (all "
+    "five pools; only excluded region: BaseException out of close() inside _finalize_fairy's error handler running as "
+    "weakref callback - shown necessary), overflow_consistent / checkedout() exact on every failure path (QueuePool; guard: "
+    "no BaseException out of close(); what still fails is shown by a witness: close() raising out of the final checkin "
+    "leaves a stale fairy); refutations of ledger (StaticPool abandons an invalidated connection) and of no_dead_reuse "
+    "under equal time stamps; the decision kernel of no_dead_reuse (get_connection) for all states."
 )
 LEVEL_NOTE = (
-    "PARTIAL: the positive whole-history theorems for `ledger` and `no_dead_reuse` are not proved (only their refutation "
-    "witnesses, the get_connection kernel c26_no_dead_reuse_kernel_partial, and - as consequences of the accounting "
-    "invariant - 'queued records are never in use' inside overflow_consistent); both clauses are checked on every run by "
-    "the direct oracle on the implementation and by the model/implementation correspondence.  Trusted: Coq kernel; the "
-    "hand transcription (source pin + exhaustive single-fault correspondence on the real pools); CPython refcount "
-    "finalisation order.  No axioms."
+    "PARTIAL: the positive whole-history theorems for `ledger` and `no_dead_reuse` are not proved (only refutation "
+    "witnesses, the get_connection kernel c26_no_dead_reuse_kernel_partial, and - inside the accounting invariant - "
+    "'queued records are never in use'); both clauses are checked on every run by the direct oracle on the implementation "
+    "and by the model/implementation correspondence.  The guard of overflow_consistent (no BaseException out of any "
+    "close()) is coarser than the region that still fails.  Trusted: Coq kernel; the hand transcription (source pin + "
+    "exhaustive single-fault correspondence on the real pools); CPython refcount finalisation order.  No axioms."
 )
 TECHNIQUE = "Coq invariant proofs over a sequential fault-injected state machine; source pin; exhaustive fault-placement correspondence against the real pools with a fake DBAPI"
 ANCHORS = [
@@ -541,11 +542,12 @@ def gen_cases(rng, tier):
 
 # witnesses used by the _refuted theorems (kept in step with coq/props/C26.v)
 WITNESSES = [
-    [[0, 1, 1, 0, -1, 0, 0, 0, 1], [[0, 0, 1], [5, 0, 1]], [0, 2]],  # c26_ex_gc_reset_baseexception_recovers (fixed by 51edfd0)
-    [[0, 1, 1, 0, -1, 0, 0, 0, 1], [[0, 0, 1], [5, 0, 1]], [0, 1, 2]],  # c26_no_leak_refuted_baseexception_from_close
-    [[0, 1, 1, 0, -1, 0, 0, 0, 1], [[0, 0, 1], [1, 0, 1], [4, 0, 1]], [0, 2]],  # c26_overflow_refuted_baseexception_in_explicit_reset
-    [[0, 1, -1, 1, 0, 1, 0, 1, 1], [[0, 0, 1]], [0, 2, 2]],  # c26_overflow_refuted_baseexception_from_close
-    [[0, 2, 0, 0, -1, 1, 1, 0, 1], [[0, 0, 1], [0, 0, 1]], [0, 4, 2]],  # c26_no_dead_reuse_refuted_baseexception_from_close
+    [[0, 1, 1, 0, -1, 0, 0, 0, 1], [[0, 0, 1], [5, 0, 1]], [0, 1, 2]],  # c26_no_leak_refuted_baseexception_from_close_in_gc_handler
+    [[0, 1, 1, 0, -1, 0, 0, 0, 1], [[0, 0, 1], [5, 0, 1]], [0, 2]],  # c26_ex_fixed_leaks (51edfd0)
+    [[0, 1, -1, 1, 0, 1, 0, 1, 1], [[0, 0, 1]], [0, 2, 2]],  # c26_ex_fixed_leaks (d50803e)
+    [[0, 1, 1, 0, -1, 0, 0, 0, 1], [[0, 0, 1], [0, 0, 1], [1, 0, 1], [1, 1, 1], [4, 1, 1]], [0, 0, 0, 0, 2]],  # c26_overflow_refuted_baseexception_from_close_at_checkin
+    [[0, 1, 1, 0, -1, 0, 0, 0, 1], [[0, 0, 1], [1, 0, 1], [4, 0, 1]], [0, 2]],  # c26_ex_fixed_stale_fairy (356c0aa)
+    [[0, 2, 0, 0, -1, 1, 1, 0, 1], [[0, 0, 1], [0, 0, 1]], [0, 4, 2]],  # c26_ex_fixed_closed_connection_not_reused (d50803e)
     [[0, 1, 0, 0, -1, 0, 0, 0, 0], [[0, 0, 1], [3, 0, 0], [1, 0, 1], [0, 0, 1]], []],  # equal stamps: soft
     [[0, 2, 0, 0, -1, 0, 0, 0, 0], [[0, 0, 1], [0, 0, 0], [1, 1, 0], [7, 0, 0], [0, 0, 1]], []],  # equal stamps: pool
     [[2, 1, 0, 0, -1, 0, 0, 0, 1], [[0, 0, 1], [3, 0, 1], [1, 0, 1], [0, 0, 1]], []],  # c26_ledger_refuted_staticpool
@@ -809,19 +811,22 @@ def _tr(trace):
 
 
 def _analyse(c, obs):
+    """which BaseException faults were consumed by a close() call: in an operation whose _finalize_fairy runs
+    as weakref callback (del+gc, failed connect) / in an explicit operation"""
     cfg, ops, faults = c["in"]
     steps = obs[0]
     k = 0
-    taint_close = taint_gc = False
+    close_gc = close_explicit = False
     for (op, arg, dt), o in zip(ops, steps):
         for kind, cid in _tr(o[3]):
             code = faults[k] if k < len(faults) else 0
             k += 1
             if code == 2 and kind == K_CLOSE:
-                taint_close = True
-            if code == 2 and kind in (K_ROLLBACK, K_COMMIT) and op not in (O_CONNECT, O_DEL):
-                taint_gc = True  # BaseException out of the reset of an explicitly returned fairy
-    return taint_close, taint_gc
+                if op in (O_CONNECT, O_DEL):
+                    close_gc = True
+                else:
+                    close_explicit = True
+    return close_gc, close_explicit
 
 
 def oracle(c, obs):
@@ -830,8 +835,12 @@ def oracle(c, obs):
     if kind == KQ and psize == 0:
         maxov = -1
     steps, nclose, idle, held, detached = obs
-    taint_close, taint_gc = _analyse(c, obs)
-    tags = "%s%s%s" % (" [BaseException-from-close]" if taint_close else "", " [BaseException-in-explicit-reset]" if taint_gc else "", " [StaticPool]" if kind == KST else "")
+    close_gc, close_explicit = _analyse(c, obs)
+    tags = "%s%s%s" % (
+        " [BaseException-from-close-in-gc]" if close_gc else "",
+        " [BaseException-from-close-in-explicit-op]" if close_explicit else "",
+        " [StaticPool]" if kind == KST else "",
+    )
     # --- replay the harness-level facts
     holder_conn = []  # per holder: connection obtained at its checkout
     alive = []  # holder still referenced by the harness
@@ -914,14 +923,14 @@ def oracle(c, obs):
 
 def match_finding(c, what):
     cfg, ops, faults = c["in"]
-    if "[BaseException-from-close]" in what:
-        return "C26-baseexception-from-close"
-    if "[BaseException-in-explicit-reset]" in what and any(o[0] in (O_DETACH, O_INV, O_POOLINV, O_SOFT) for o in ops):
-        return "C26-stale-fairy-after-baseexception-in-reset"
     if (
         "[StaticPool]" in what
         and "is open but neither idle in the pool nor held" in what
         and (any(o[0] in (O_SOFT, O_POOLINV) for o in ops) or any(f in (3, 4) for f in faults))
     ):
         return "C26-staticpool-abandons-connection"
+    if "[BaseException-from-close-in-gc]" in what and what.startswith(("leak:", "overflow:")):
+        return "C26-baseexception-from-close-in-finalize-handler"
+    if "[BaseException-from-close-in-explicit-op]" in what and any(o[0] in (O_DETACH, O_INV, O_POOLINV, O_SOFT) for o in ops):
+        return "C26-baseexception-from-close-at-checkin-leaves-stale-fairy"
     return None
